@@ -44,6 +44,12 @@ func sanitizeSelectionSet(ctx *PlanningContext, selectionSet ast.SelectionSet, i
 			childSelectionSet, sf := sanitizeSelectionSet(ctx, s.SelectionSet, insertionPoint)
 			scrubFields.Merge(sf)
 
+			// a fragment on the abstract type of its surroundings is dissolved below: what its directives say
+			// (@skip, @include) goes on with the selections it held, the helper fields join them afterwards
+			if def, ok := ctx.Schema.Types[s.TypeCondition]; ok && def.IsAbstractType() && s.ObjectDefinition != nil && s.TypeCondition == s.ObjectDefinition.Name {
+				childSelectionSet = withDirectives(childSelectionSet, s.Directives)
+			}
+
 			var addedFields []string
 			childSelectionSet, addedFields = addScrubFieldsToSelectionSet(ctx, childSelectionSet, s.TypeCondition)
 			for _, f := range addedFields {
